@@ -236,10 +236,10 @@ Qed.
 Lemma Inv_stop_restart w w' : Tm w -> NoDup (pfx w) -> NoDup (keys w) -> stop_restart w = Ok tt w' ->
   Inv w' /\ last_update (sk w') = 0 /\ no_data w' /\ req_sess (sk w') = true /\ st (sk w') = c_RTR_CONNECTING.
 Proof.
-  intros Ht HP HK. rewrite stop_restart_eq'. intros E; inversion E; subst w'; clear E.
+  intros Ht HP HK E. rewrite stop_restart_eq' in E.
   destruct (Inv_stopped w Ht HP HK) as [_ HI].
   pose proof (stopped_facts w) as H. cbv zeta in H. destruct H as (A & B & C & D & _).
-  remember (stopped w) as ws. clear Heqws.
+  remember (stopped w) as ws. clear Heqws. injection E as <-.
   split; [|cbn [sk pfx keys with_sk with_out last_update req_sess st upd_st]; auto].
   eapply Inv_KT; [exact HI|]. eapply KT_trans; [apply with_out_KT|].
   apply with_sk_KT; cbn [sk with_out last_update retry_iv req_sess resetting upd_st]; auto.
